@@ -74,6 +74,56 @@ MUTATION_DRILLS = [
    "wf:menu:after-hl:synth",
    "wf:menu:after-hlp:stock"
   ]
+ },
+ {
+  "mutation": "(seeded) Context::set_caret_pos no longer clamps (clamp moved into RimeSetCaretPos) + Navigator::BeginMove keeps its span cache while the input is a prefix of the recorded one: after trailing BackSpaces a syllable jump sets caret > |input| (caught by the span_cache pattern histories)",
+  "ran": "scratch worktree /var/tmp/wt-eng at /repo HEAD + the change; VERIF_REPO=/var/tmp/wt-eng VERIF_CACHE=/var/tmp/rime-verif-eng bin/check C02 quick",
+  "exit": 1,
+  "printed": "VIOLATION property=C02 replay=replays/C02-quick-0.json",
+  "violation_keys": [
+   "wf:caret:after-getctx:stock",
+   "wf:caret:after-getctx:synth",
+   "wf:caret:after-getinput:stock",
+   "wf:caret:after-getinput:synth",
+   "wf:caret:after-key+mod:stock",
+   "wf:caret:after-key+mod:synth",
+   "wf:caret:after-key:stock",
+   "wf:caret:after-key:synth"
+  ],
+  "first_replay": {
+   "schema": "luna_pinyin",
+   "history_tail": [
+    "key 122 0",
+    "key 104 0",
+    "key 65367 0",
+    "key 65288 0",
+    "key 65289 0"
+   ]
+  }
+ },
+ {
+  "mutation": "(seeded) ConcreteEngine::OnOptionUpdate restores the previous selected_index after re-translating: a shorter list (zh_simp + uniquifier on luna_pinyin; option verif_short of the oracle translator on the synthetic schemas) gives highlighted >= num_candidates (caught by the option_toggle pattern histories)",
+  "ran": "scratch worktree /var/tmp/wt-eng at /repo HEAD + the change; VERIF_REPO=/var/tmp/wt-eng VERIF_CACHE=/var/tmp/rime-verif-eng bin/check C02 quick",
+  "exit": 1,
+  "printed": "VIOLATION property=C02 replay=replays/C02-quick-0.json",
+  "violation_keys": [
+   "wf:menu:after-getctx:stock",
+   "wf:menu:after-getctx:synth",
+   "wf:menu:after-key:synth",
+   "wf:menu:after-opt:stock",
+   "wf:menu:after-opt:synth"
+  ],
+  "first_replay": {
+   "schema": "luna_pinyin",
+   "history_tail": [
+    "key 101 0",
+    "key 105 0",
+    "key 65364 0",
+    "key 65364 0",
+    "key 65364 0",
+    "opt zh_simp 1"
+   ]
+  }
  }
 ]
 
